@@ -1,6 +1,6 @@
 /-
   Helper definitions and lemmas for C05:
-    * `cloneSub` = full substitution on the `oneBearing` domain;
+    * `cloneSub` = full substitution (every value);
     * `trace` / `runTrace`: the Cartesian-product view of the recursive enumeration, and the refinement
       `doBatch = runTrace ∘ trace`.
 -/
@@ -38,60 +38,40 @@ end
 
 mutual
 theorem cloneSub_eq_subst (k : String) (v : Value) :
-    ∀ r : Value, r.oneBearing k = true → cloneSub k v r = (Value.subst k v r, r.hasVar k)
-  | .entity ty id, _ => by
+    ∀ r : Value, cloneSub k v r = (Value.subst k v r, r.hasVar k)
+  | .entity ty id => by
       simp only [cloneSub, Value.subst, Value.hasVar]
       split <;> simp_all
-  | .record kvs, h => by
-      simp only [Value.oneBearing] at h
-      simp only [cloneSub, cloneSubKVs_eq k v kvs h, Value.subst, Value.hasVar]
+  | .record kvs => by
+      simp only [cloneSub, cloneSubKVs_eq k v kvs, Value.subst, Value.hasVar]
       cases hv : Value.hasVarKVs k kvs
       · simp [substKVs_noop k v kvs hv]
       · simp
-  | .set xs, h => by
-      simp only [Value.oneBearing] at h
-      simp only [cloneSub, cloneSubAny_eq k v xs h, cloneSubMap_eq k v xs h, Value.subst, Value.hasVar]
+  | .set xs => by
+      simp only [cloneSub, cloneSubAny_eq k v xs, cloneSubMap_eq k v xs, Value.subst, Value.hasVar]
       cases hv : Value.hasVarList k xs <;> simp
-  | .bool _, _ => rfl
-  | .long _, _ => rfl
-  | .str _, _ => rfl
-  | .decimal _, _ => rfl
-  | .datetime _, _ => rfl
-  | .duration _, _ => rfl
-  | .ip _, _ => rfl
+  | .bool _ => rfl
+  | .long _ => rfl
+  | .str _ => rfl
+  | .decimal _ => rfl
+  | .datetime _ => rfl
+  | .duration _ => rfl
+  | .ip _ => rfl
 theorem cloneSubKVs_eq (k : String) (v : Value) :
-    ∀ kvs : List (String × Value), Value.oneBearingKVs k kvs = true →
-      cloneSubKVs k v kvs = if Value.hasVarKVs k kvs then some (Value.substKVs k v kvs) else none
-  | [], _ => by simp [cloneSubKVs, Value.hasVarKVs]
-  | (kk, x) :: rest, h => by
-      simp only [Value.oneBearingKVs, Bool.and_eq_true, Bool.or_eq_true, Bool.not_eq_true'] at h
-      obtain ⟨⟨hx, hrest⟩, hone⟩ := h
-      have hcs := cloneSub_eq_subst k v x hx
-      cases hvx : Value.hasVar k x
-      · -- the field does not bear k: look further
-        rw [hvx] at hcs
-        simp only [cloneSubKVs, hcs, Value.hasVarKVs, Value.substKVs, hvx, cloneSubKVs_eq k v rest hrest,
-          subst_noop k v x hvx, Bool.false_or]
-        cases hvr : Value.hasVarKVs k rest <;> simp
-      · -- the field bears k: no later field does, so leaving them alone is substitution
-        rw [hvx] at hcs
-        have hr : Value.hasVarKVs k rest = false := by
-          rcases hone with h1 | h1
-          · simp [hvx] at h1
-          · exact h1
-        simp [cloneSubKVs, hcs, Value.hasVarKVs, Value.substKVs, hvx, substKVs_noop k v rest hr]
+    ∀ kvs : List (String × Value), cloneSubKVs k v kvs = (Value.substKVs k v kvs, Value.hasVarKVs k kvs)
+  | [] => rfl
+  | (kk, x) :: rest => by
+      simp [cloneSubKVs, Value.hasVarKVs, Value.substKVs, cloneSub_eq_subst k v x, cloneSubKVs_eq k v rest]
 theorem cloneSubAny_eq (k : String) (v : Value) :
-    ∀ xs : List Value, Value.oneBearingList k xs = true → cloneSubAny k v xs = Value.hasVarList k xs
-  | [], _ => rfl
-  | x :: xs, h => by
-      simp only [Value.oneBearingList, Bool.and_eq_true] at h
-      simp [cloneSubAny, Value.hasVarList, cloneSub_eq_subst k v x h.1, cloneSubAny_eq k v xs h.2]
+    ∀ xs : List Value, cloneSubAny k v xs = Value.hasVarList k xs
+  | [] => rfl
+  | x :: xs => by
+      simp [cloneSubAny, Value.hasVarList, cloneSub_eq_subst k v x, cloneSubAny_eq k v xs]
 theorem cloneSubMap_eq (k : String) (v : Value) :
-    ∀ xs : List Value, Value.oneBearingList k xs = true → cloneSubMap k v xs = Value.substList k v xs
-  | [], _ => rfl
-  | x :: xs, h => by
-      simp only [Value.oneBearingList, Bool.and_eq_true] at h
-      simp [cloneSubMap, Value.substList, cloneSub_eq_subst k v x h.1, cloneSubMap_eq k v xs h.2]
+    ∀ xs : List Value, cloneSubMap k v xs = Value.substList k v xs
+  | [] => rfl
+  | x :: xs => by
+      simp [cloneSubMap, Value.substList, cloneSub_eq_subst k v x, cloneSubMap_eq k v xs]
 end
 
 /-! ### full substitution leaves no occurrence -/
@@ -375,5 +355,100 @@ theorem runTrace_cancelled {ε : Type} (cancelled : Nat → Bool) (cb : BResult 
           · exact hok
           · exact h2 x hx
         · cases h
+
+/-! ## the request handed to the callback is the fully substituted template -/
+
+/-- successive full substitution of the variables of a substitution, in enumeration order -/
+def substMany (vals : List (String × Value)) (x : Value) : Value :=
+  vals.foldl (fun acc kv => Value.subst kv.1 kv.2 acc) x
+
+def substManyEnv (vals : List (String × Value)) (env : Env) : Env :=
+  vals.foldl (fun acc kv => substEnv kv.1 kv.2 acc) env
+
+theorem substManyEnv_parts (vals : List (String × Value)) (env : Env) :
+    (substManyEnv vals env).principal = substMany vals env.principal ∧
+    (substManyEnv vals env).action = substMany vals env.action ∧
+    (substManyEnv vals env).resource = substMany vals env.resource ∧
+    (substManyEnv vals env).context = substMany vals env.context := by
+  induction vals generalizing env with
+  | nil => simp [substManyEnv, substMany]
+  | cons kv rest ih =>
+    have := ih (substEnv kv.1 kv.2 env)
+    simpa [substManyEnv, substMany, substEnv] using this
+
+/-- no request part is the ignore marker -/
+def noIgnoredPart (env : Env) : Bool :=
+  !env.principal.isIgnore && !env.action.isIgnore && !env.resource.isIgnore && !env.context.isIgnore
+
+theorem fixIgnores_noop (env : Env) (h : noIgnoredPart env = true) : fixIgnores env = env := by
+  simp only [noIgnoredPart, Bool.and_eq_true, Bool.not_eq_true'] at h
+  obtain ⟨⟨⟨h1, h2⟩, h3⟩, h4⟩ := h
+  simp [fixIgnores, h1, h2, h3, h4]
+
+theorem subst_not_ignore (k : String) (v r : Value) (hv : v.isIgnore = false) (hr : r.isIgnore = false) :
+    (Value.subst k v r).isIgnore = false := by
+  cases r with
+  | entity ty id =>
+    simp only [Value.subst]
+    split
+    · exact hv
+    · exact hr
+  | set xs =>
+    simp only [Value.subst]
+    split <;> rfl
+  | _ => rfl
+
+theorem noIgnoredPart_substEnv (k : String) (v : Value) (env : Env) (hv : v.isIgnore = false)
+    (h : noIgnoredPart env = true) : noIgnoredPart (substEnv k v env) = true := by
+  simp only [noIgnoredPart, Bool.and_eq_true, Bool.not_eq_true'] at h ⊢
+  obtain ⟨⟨⟨h1, h2⟩, h3⟩, h4⟩ := h
+  simp [substEnv, subst_not_ignore, hv, h1, h2, h3, h4]
+
+theorem cloneSubEnv_eq_substEnv (k : String) (v : Value) (env : Env) : cloneSubEnv k v env = substEnv k v env := by
+  simp [cloneSubEnv, substEnv, cloneSub_eq_subst]
+
+theorem leafResult_parts (env : Env) (ps : List (PolicyID × Policy)) (vals : List (String × Value)) (r : BResult)
+    (h : leafResult env ps vals = some r) :
+    r.principal = env.principal ∧ r.action = env.action ∧ r.resource = env.resource ∧ r.context = env.context ∧
+      r.allow = (authorize ps env).allow := by
+  unfold leafResult at h
+  split at h
+  · cases h; exact ⟨rfl, rfl, rfl, rfl, rfl⟩
+  · cases h
+
+/-- every leaf of the enumeration carries the template with the variables of ITS substitution fully replaced
+    (no ignored request part, no ignore marker among the values) -/
+theorem trace_leaf_env (vars : List (String × List Value)) (env : Env) (ps : List (PolicyID × Policy))
+    (vals : List (String × Value)) (hi : noIgnoredPart env = true)
+    (hv : ∀ kv ∈ vars, ∀ v ∈ kv.2, v.isIgnore = false) :
+    ∀ o ∈ trace vars env ps vals, ∃ σs, o.1 = vals ++ σs ∧ σs.map (·.1) = vars.map (·.1) ∧
+      ∀ r, o.2 = some r →
+        r.principal = (substManyEnv σs env).principal ∧ r.action = (substManyEnv σs env).action ∧
+        r.resource = (substManyEnv σs env).resource ∧ r.context = (substManyEnv σs env).context := by
+  induction vars generalizing env ps vals with
+  | nil =>
+    intro o ho
+    simp only [trace, List.mem_singleton] at ho
+    subst ho
+    refine ⟨[], by simp, rfl, ?_⟩
+    intro r hr
+    obtain ⟨h1, h2, h3, h4, _⟩ := leafResult_parts _ _ _ _ hr
+    exact ⟨h1, h2, h3, h4⟩
+  | cons kv rest ih =>
+    obtain ⟨k, vs⟩ := kv
+    intro o ho
+    simp only [trace, List.mem_flatMap] at ho
+    obtain ⟨v, hvmem, ho⟩ := ho
+    have hvi : v.isIgnore = false := hv (k, vs) (by simp) v hvmem
+    have henv : (if rest.isEmpty then fixIgnores env else env) = env := by
+      split
+      · exact fixIgnores_noop env hi
+      · rfl
+    rw [henv, cloneSubEnv_eq_substEnv] at ho
+    obtain ⟨σs, h1, h2, h3⟩ := ih (substEnv k v env) (doPartial env ps) (vals ++ [(k, v)])
+      (noIgnoredPart_substEnv k v env hvi hi) (fun kv h => hv kv (by simp [h])) o ho
+    refine ⟨(k, v) :: σs, by simp [h1], by simp [h2], ?_⟩
+    intro r hr
+    simpa [substManyEnv] using h3 r hr
 
 end CedarGo
